@@ -4,11 +4,13 @@ EXTENDS WriterAdmission
 
 CONSTANTS NTxn,      \* transactions per writer
           NReads,    \* read transactions per reader
-          MCHows     \* how a transaction may end
+          MCHows,    \* how a transaction may end
+          MCRModeSet \* how readers open their later transactions
 
 SeqsOf(S, n) == [1..n -> S]
 MCPlans == [Writers -> SeqsOf(MCHows, NTxn)]
 MCRPlans == [Readers -> {NReads}]
+MCRModes == [Readers -> MCRModeSet]
 MCPPlans == [Policers -> {<<2, 1>>, <<0, 1>>}]   \* with Policers = {} this is the single empty function
 \* writers are interchangeable: one plan per multiset of endings (first transaction sorted)
 Rank(h) == CASE h = "commit" -> 1 [] h = "rollback" -> 2 [] OTHER -> 3
